@@ -954,7 +954,13 @@ impl JitCompiler {
                             if let Some(helper) = helpers.get(&(insn.imm as u32)) {
                                 // We reserve RCX for shifts
                                 self.emit_mov(mem, R9, RCX);
+                                // R10 (pointer to mem for LD_ABS_* and LD_IND_*) is caller-saved:
+                                // the helper may change it. Push it twice to keep RSP aligned.
+                                self.emit_push(mem, R10);
+                                self.emit_push(mem, R10);
                                 self.emit_call(mem, *helper as usize);
+                                self.emit_pop(mem, R10);
+                                self.emit_pop(mem, R10);
                             } else {
                                 Err(Error::other(
                                     format!(
